@@ -578,7 +578,11 @@ impl<K: Kmer, D: Debug> DebruijnGraph<K, D> {
         }
 
         for (target, dir, _) in node.r_edges() {
-            if target > node.node_id as usize {
+            // a link to an earlier node was written from that node; a self-link into our own
+            // right side (hairpin) is only seen from here
+            if target > node.node_id as usize
+                || (target == node.node_id as usize && matches!(dir, Dir::Right))
+            {
                 let to_dir = match dir {
                     Dir::Left => "+",
                     Dir::Right => "-",
